@@ -17,7 +17,7 @@ func init() {
 		registry[id].Run = func(c *Ctx) { prev(c); extra(c) }
 	}
 	wrap("C03", extra8C03)
-	wrap("C07", extra8C07)
+	// C07-R18 (extra8C07) is retired: see its comment
 	wrap("C17", extra8C17)
 	wrap("C18", extra8C18)
 	wrap("C19", extra8C19)
@@ -106,6 +106,10 @@ func invalidatesOn401(c *Ctx) bool {
 
 // ---------------------------------------------------------------------------------- C07
 
+// extra8C07 (C07-R18) is no longer armed: it demanded that the newest stored position in CanResume be a
+// maximum over the range. Since fix ffe1e57a2 the answer also requires the whole new window to be stored, and
+// with that a stale "newest" position cannot produce a wrong yes — the rule would report a behaviour-preserving
+// variant (the refreshed seed C07-12 passes its demonstration), i.e. it asks for more than the property does.
 func extra8C07(c *Ctx) {
 	rule := "C07-R18"
 	c.Rule(rule, "a slot is resumed only if the window of the newest stored position covers the new one: in Causal.CanResume the position whose window is compared is the maximum over the cells of the sequence — every assignment that reads a cell's pos into it lies in a loop over the sequence's range and has the form max(x, cell.pos) (or is guarded by cell.pos > x). Cells are reused out of order once the sliding window has freed some, so the cell at the end of the range need not hold the newest position: assuming it does resumes on a window that is partly gone")
